@@ -14,7 +14,7 @@ RULE = ('a faulty carrier — a file with a lexical or a syntax error, or a decl
         'placement, order)')
 
 LOCAL_KINDS = {'struct-dup-element', 'subrange-min-gt-max', 'subrange-min-eq-max', 'enum-dup-value', 'const-no-init',
-               'undefined-var-rhs', 'undefined-var-target', 'undefined-var-subscript', 'task-undefined', 'fb-self-instance', 'const-fb',
+               'undefined-var-rhs', 'undefined-var-target', 'undefined-var-subscript', 'undefined-var-condition', 'undefined-var-call-arg', 'task-undefined', 'fb-self-instance', 'const-fb',
                # a name declared twice is a fault of the set wherever the two declarations stand (same file, two files, copies word for word)
                'dup-verbatim-adjacent', 'dup-pou-name', 'dup-type-name'}
 # a construct the analyzer answers with P9999 "not implemented" (an initialised simple type): its answer ends the analysis
@@ -31,7 +31,7 @@ def offset_decl(d, off):
     def ty(t): return t if isinstance(t, str) else ('n', n(t[1]))
     def v(x): return dict(x, name=n(x['name']), ty=ty(x['ty']), init=(n(x['init']) if isinstance(x['ty'], tuple) and x['init'] is not None else x['init']))
     def st(s):
-        if s[0] == 'a': return ('a', n(s[1]), [n(r) for r in s[2]])
+        if s[0] == 'a': return ('a', n(s[1]), [n(r) for r in s[2]]) + (((s[3][0], n(s[3][1])),) if len(s) > 3 and s[3] else ())
         if s[0] == 's': return ('s', n(s[1]), n(s[2]), n(s[3]))
         return ('c', n(s[1]), [(n(a), n(b)) for a, b in s[2]], [n(p) for p in s[3]], [(n(a), n(b)) for a, b in s[4]])
     k = d[0]
